@@ -1,6 +1,6 @@
-(* C03 -- Printed code parses back to the tree it was printed from (tree-level clauses).
+(* C03 -- Printed code parses back to the tree it was printed from (tree-level and text-level clauses).
    Property theorems only. *)
-Require Import Base Token Tree Writer Compile Parser Grammar PrintSpec PrintProofs.
+Require Import Base Token Lexer Tree Writer Compile Parser Grammar PrintSpec CommentSpec RelexSpec PrintProofs RelexProofs.
 Require Import Gen.Tables Gen.Printer.
 
 (* the printer-side precedence of every node kind is its ECMAScript level: the two
@@ -35,3 +35,21 @@ Print Assumptions C03_same_text.
 Theorem C03_groupify_idempotent : forall e, printable e = true -> groupify (groupify e) = groupify e.
 Proof. exact groupify_idem. Qed.
 Print Assumptions C03_groupify_idempotent.
+
+(* TEXT LEVEL: printing an assembled expression tree compactly (the printer's parentheses,
+   fusion-avoiding blanks, re-quoted strings), lexing the text and parsing it yields - without
+   error - the parenthesised tree, i.e. the same tree up to grouping nodes, positions and
+   comments.  [printable]: callee/object positions hold call-level-or-tighter operands,
+   assignment targets are simple, no nil children; [lexical]: every stored literal is one
+   the lexer can produce for its token type (identifier spelling, numeral accepted by
+   strconv, string/backtick body free of its raw delimiter); an expression statement must
+   not begin with '{'. *)
+Theorem C03_print_parse_compact : forall e,
+  printable e = true -> lexical e = true -> negb (first_type e =? T_LBRACE) = true ->
+  exists r, reparse_compact (expr_program e) = Some r /\
+            pr_errors r = [] /\
+            shape_program (pr_program r) = shape_program (expr_program (groupify e)) /\
+            map strip_groups_stmt (p_stmts (shape_program (pr_program r)))
+            = map strip_groups_stmt (p_stmts (shape_program (expr_program e))).
+Proof. exact print_parse_compact. Qed.
+Print Assumptions C03_print_parse_compact.
